@@ -59,8 +59,22 @@ class StreamReader {
   }
 
   Status<void> Skip(std::size_t padding_bytes) {
-    stream_.seekg(padding_bytes, std::ios_base::cur);
-    return ReturnStatus();
+    // Read and discard instead of seeking: seeking past the end of the data is
+    // not reported by every stream type, which would let a truncated stream
+    // pass as complete.
+    using CharType = typename IStream::char_type;
+    const std::size_t kScratchSize = 64;
+    CharType scratch[kScratchSize];
+    while (padding_bytes > 0) {
+      const std::size_t count =
+          padding_bytes < kScratchSize ? padding_bytes : kScratchSize;
+      stream_.read(scratch, count);
+      auto status = ReturnStatus();
+      if (!status)
+        return status;
+      padding_bytes -= count;
+    }
+    return {};
   }
 
   const IStream& stream() const { return stream_; }
@@ -69,7 +83,7 @@ class StreamReader {
 
  private:
   Status<void> ReturnStatus() {
-    if (stream_.bad() || stream_.eof())
+    if (stream_.fail() || stream_.eof())
       return ErrorStatus::StreamError;
     else
       return {};
